@@ -80,6 +80,8 @@ def viols_of(res):
 def segment_of(events, idx):
     """the events of the scenario (Reset .. End) that contains event number idx (1-based)"""
     i = min(max(idx - 1, 0), len(events) - 1)
+    if events[i]["e"] in ("Probe", "Crash"):
+        return [events[i]]          # stand-alone events
     a = i
     while a > 0 and events[a]["e"] != "Reset":
         a -= 1
@@ -177,7 +179,8 @@ WRITER_ENTRY = ["write", "write_vectored", "write_obj", "write_all", "write_from
 READER_ENTRY = ["read", "read_obj", "read_to", "read_to_at", "read_exact_to", "split_at", "async_read_to_at"]
 FVS_ENTRY = ["fvs.write", "fvs.read", "fvs.write_slice", "fvs.read_slice", "fvs.store", "fvs.load", "fvs.offset", "fvs.view",
              "fvs.read_volatile_from", "fvs.read_exact_volatile_from", "fvs.write_volatile_to", "fvs.write_all_volatile_to",
-             "fvs.borrow_as_buf", "buf.new", "buf.set_size", "buf.fill", "buf.peek"]
+             "fvs.borrow_as_buf", "buf.new", "buf.set_size", "buf.fill", "buf.peek",
+             "ft.read_exact_at", "ft.write_all_at", "ft.read_exact", "ft.write_all"]
 
 
 def coverage_gate(ctx, stats, events):
